@@ -29,6 +29,16 @@ static bool stop_possible(uint64_t state)
 /* ---- S-contracts of the word operations (verbatim from word.c; proved there) ---- */
 //@LIFT callee_contracts
 
+#ifdef U_BOUNDED
+/* bounded stand-in only: the real bodies of the word operations, run sequentially (g_seq) */
+void lock(struct stop_state *self)
+//@LIFT b_lock
+void unlock(struct stop_state *self)
+//@LIFT b_unlock
+bool lock_and_request_stop(struct stop_state *self)
+//@LIFT b_lars
+#endif
+
 /* ---- list primitives (lifted bodies; their own contracts are units list.*) ---- */
 static void add_this_callback(struct stop_callback_base *self, struct stop_callback_base **callbacks)
 //@LIFT add_this
@@ -84,6 +94,9 @@ static struct cb_ghost {
 /* V_REACH in window terms: V first, or second, or somewhere behind the second node */
 #define V_REACH(s) (!LISTED(&g_V) || ((s)->callbacks_ != NULL && ((s)->callbacks_ == &g_V || ((s)->callbacks_->next_ != NULL))))
 #define V_ONCE (g_V.g_exec >= 0 && g_V.g_exec <= 1 && (g_V.g_exec == 0 || g_V.prev_ == NULL))
+/* ... and if it is neither first nor second, the second node has a successor (window consequence of reachability, depth 2) */
+#define V_REACH2(s) (!LISTED(&g_V) || (s)->callbacks_ == NULL || (s)->callbacks_ == &g_V || (s)->callbacks_->next_ == NULL || \
+                     (s)->callbacks_->next_ == &g_V || (s)->callbacks_->next_->next_ != NULL)
 /* a node that is not listed is not in the window */
 #define V_ABSENT(s) (LISTED(&g_V) || ((s)->callbacks_ != &g_V && ((s)->callbacks_ == NULL || (s)->callbacks_->next_ != &g_V)))
 
@@ -121,7 +134,27 @@ static void mon_havoc_list(struct stop_state *s)
     VX_ASSUME(g_V.next_ == NULL || (g_V.next_ != &g_V && g_V.next_->prev_ == &g_V.next_ && FRESH(g_V.next_)));
   }
   /* monitor invariant (every other release point asserts it) */
-  VX_ASSUME(WINDOW_OK(s) && V_REACH(s) && V_ABSENT(s));
+  VX_ASSUME(WINDOW_OK(s) && V_REACH(s) && V_REACH2(s) && V_ABSENT(s));
+}
+/* TRUSTED: pointer-level view of the list at the head of one iteration of request_stop's loop.  The signaller has held the
+ * lock without interruption since its last acquisition, where the monitor invariant held, and has not touched the list since
+ * (whole-function unit: nothing but signalling_thread_ is written between acquisition and loop head); so the window can be
+ * re-materialised from the invariant.  Emptiness of the list and the victim's membership are kept. */
+static void mon_materialise(struct stop_state *s)
+{
+  bool nonempty = s->callbacks_ != NULL, listed = LISTED(&g_V);
+  s->callbacks_ = pick_node();
+  havoc_anon(&g_A);
+  havoc_anon(&g_B);
+  if (listed)
+  {
+    g_V.next_ = pick_node();
+    g_V.prev_ = pick_cell();
+    VX_ASSUME(g_V.prev_ != NULL);
+    VX_ASSUME(g_V.next_ == NULL || (g_V.next_ != &g_V && g_V.next_->prev_ == &g_V.next_ && FRESH(g_V.next_)));
+  }
+  VX_ASSUME((s->callbacks_ != NULL) == nonempty);
+  VX_ASSUME(WINDOW_OK(s) && V_REACH(s) && V_REACH2(s) && V_ABSENT(s));   /* monitor invariant */
 }
 /* bounded stand-in only: ~stop_callback of the victim runs between two critical sections of the signaller (the lifted
  * remove_this_callback does the unlinking) */
@@ -230,7 +263,7 @@ static void scoped_lock_if_not_stopped_dtor(struct scoped_lock *self)
 static bool scoped_lock_if_not_stopped_bool(const struct scoped_lock *self)
 //@LIFT slins_bool
 #endif
-#ifdef U_REQUEST_STOP
+#if defined(U_REQUEST_STOP) || defined(U_STEP)
 static void scoped_lock_and_request_stop_ctor(struct scoped_lock *self, struct stop_state *state)
 //@LIFT slars_ctor
 static void scoped_lock_and_request_stop_dtor(struct scoped_lock *self)
@@ -283,13 +316,47 @@ __CPROVER_assigns(CB_FRAME)
 //@LIFT body
 #endif
 
-#ifdef U_REQUEST_STOP
+/* what the signaller knows at the head of every iteration of its loop, in terms that need no pointer dereference
+ * (scalars and pointer VALUES only): lock held by the winner; the victim ran at most once and only after being dequeued;
+ * a listed victim is untouched and the list is then not empty; a victim that was listed at the time of the stop request
+ * and is not listed any more either ran (flag published unless it destroyed itself) or was destroyed without running */
+#define SINV(self) (g_held && g_won && g_i_am_signaller && g_sig_exists && g_mytok == 0 && g_mysrc == 1 && !g_seq && !g_waited && \
+   W_INV((self)->state_) && W_LOCK((self)->state_) && W_SRC((self)->state_) >= 1 && (self)->signalling_thread_ == g_self_id && V_ONCE && \
+   g_releases >= 0 && g_releases <= 2 && \
+   (!LISTED(&g_V) || (FRESH(&g_V) && (self)->callbacks_ != NULL)) && \
+   (g_v_listed_at_win || (g_V.g_exec == 0 && !LISTED(&g_V) && !g_v_self_removed)) && \
+   (!(g_v_listed_at_win && !LISTED(&g_V)) || (g_V.g_exec == 1 && g_V.prev_ == NULL && (g_V.callback_finished_executing_ || g_v_self_removed)) || (g_V.g_exec == 0 && g_V.g_dead)) && \
+   (g_v_self_removed ? (g_V.g_exec == 1 && g_V.g_dead && !g_V.callback_finished_executing_) : (g_V.g_exec == 0 || g_V.callback_finished_executing_)))
+#define CB_FRAME_W g_S, g_V, g_A, g_B, vxg, cbg
+
+#if defined(U_REQUEST_STOP) || defined(U_STEP)
+#ifdef U_STEP
+//@FUNC
+#endif
+void drain_step(struct stop_state *self)
+__CPROVER_requires(self == &g_S && SINV(self) && self->callbacks_ != NULL)
+/* one iteration: dequeue the head under the lock, run it outside the lock exactly once (stub obligations), publish the
+ * finished flag unless it destroyed itself, re-acquire: the loop invariant is re-established */
+__CPROVER_ensures(SINV(self))
+__CPROVER_ensures(g_win_old == __CPROVER_old(g_win_old) && g_win_new == __CPROVER_old(g_win_new) && g_v_listed_at_win == __CPROVER_old(g_v_listed_at_win))
+__CPROVER_assigns(CB_FRAME_W)
+#ifdef U_STEP
+{
+  mon_materialise(self);
+//@LIFT step
+}
+#else
+;
+#endif
+#endif
+
+#if defined(U_REQUEST_STOP) && !defined(U_STEP)
 //@FUNC
 bool request_stop(struct stop_state *self)
-__CPROVER_requires(CB_PRE(self) && g_mysrc == 1 && WINDOW_OK(self) && V_REACH(self) && V_ABSENT(self) && V_ONCE && !g_V.g_dead && !g_won && !g_sig_exists && !g_i_am_signaller)
-__CPROVER_requires((LISTED(&g_V) ? FRESH(&g_V) : g_V.prev_ == NULL) && !g_v_self_removed)
+__CPROVER_requires(CB_PRE(self) && g_mysrc == 1 && V_ONCE && !g_V.g_dead && !g_won && !g_sig_exists && !g_i_am_signaller && !g_v_self_removed)
+__CPROVER_requires(LISTED(&g_V) ? (FRESH(&g_V) && self->callbacks_ != NULL) : g_V.prev_ == NULL)
 /* true <=> ITS step turned the stop bit 0 -> 1 */
-__CPROVER_ensures(__CPROVER_return_value == g_won && (g_won ==> (!W_STOP(g_win_old) && W_STOP(g_win_new))))
+__CPROVER_ensures((__CPROVER_return_value ? g_won : !g_won) && (g_won ==> (!W_STOP(g_win_old) && W_STOP(g_win_new))))
 /* the winner drains the list: at its last release the list is empty, the signalling thread is recorded */
 __CPROVER_ensures(__CPROVER_return_value ==> (g_final_empty && self->signalling_thread_ == g_self_id && g_releases >= 1))
 /* victim: in the list when the stop request was made => executed exactly once (outside the lock: stub obligation), unless its
@@ -299,7 +366,7 @@ __CPROVER_ensures(g_V.g_exec <= 1 && (g_v_self_removed || g_V.g_exec == 0 || g_V
 /* loser: touches nothing */
 __CPROVER_ensures(!__CPROVER_return_value ==> (g_releases == 0 && self->callbacks_ == __CPROVER_old(self->callbacks_) && g_V.g_exec == __CPROVER_old(g_V.g_exec) && W_STOP(g_last_read)))
 __CPROVER_ensures(!g_held)
-__CPROVER_assigns(CB_FRAME)
+__CPROVER_assigns(CB_FRAME_W)
 //@LIFT body
 #endif
 
@@ -386,7 +453,26 @@ void harness(void)
   if (g_v_class == CLASS_DEQUEUED && !g_i_am_signaller && g_self_id == 0 && g_sig_tid == 0) VX_REACH("two_os_threads");
 #endif
 #endif
-#ifdef U_REQUEST_STOP
+#ifdef U_STEP
+  /* the signaller at the head of an iteration: any state allowed by SINV (filtered by the precondition) */
+  g_held = true; g_won = true; g_i_am_signaller = true; g_sig_exists = true; g_mysrc = 1;
+  g_S.signalling_thread_ = g_self_id;
+  g_win_old = nondet_u64(); g_win_new = nondet_u64();
+  g_v_listed_at_win = nondet_bool(); g_v_self_removed = nondet_bool();
+  g_V.g_exec = nondet_bool() ? 1 : 0; g_V.callback_finished_executing_ = nondet_bool(); g_V.g_dead = nondet_bool();
+  g_V.is_removed_ = nondet_bool() ? &g_is_removed_flag : NULL;
+  bool listed0 = LISTED(&g_V);
+  int exec0 = g_V.g_exec;
+  drain_step(&g_S);
+  VX_REACH("stepped");
+  if (listed0 && exec0 == 0 && g_V.g_exec == 1 && g_V.callback_finished_executing_) VX_REACH("victim_was_head_and_ran");
+  if (listed0 && g_V.g_exec == 1 && g_v_self_removed) VX_REACH("victim_removed_itself");
+  if (listed0 && LISTED(&g_V)) VX_REACH("victim_still_listed");
+  if (listed0 && g_V.g_exec == 0 && g_V.g_dead) VX_REACH("victim_deregistered_meanwhile");
+  if (!listed0) VX_REACH("victim_not_listed");
+  if (g_S.callbacks_ == NULL) VX_REACH("list_now_empty");
+#endif
+#if defined(U_REQUEST_STOP) && !defined(U_STEP)
   bool listed0 = nondet_bool();
   if (!listed0) { g_V.prev_ = NULL; }
   g_mysrc = 1;   /* the caller is a stop_source */
@@ -407,7 +493,22 @@ void harness(void)
     listed0 = LISTED(&g_V);
   }
 #endif
+#ifdef U_BOUNDED
+  g_seq = true;   /* no interference on the word: the stand-in runs the real lock/unlock/lock_and_request_stop bodies */
+  struct stop_callback_base *head0 = g_S.callbacks_;
+  bool stop0 = W_STOP(g_S.state_) != 0;
+  if (W_LOCK(g_S.state_) || !W_INV(g_S.state_) || W_SRC(g_S.state_) < 1) return;
+#endif
   bool r = request_stop(&g_S);
+#ifdef U_BOUNDED
+  /* the postconditions of the contract, asserted directly (no contract instrumentation in the stand-in) */
+  VX_ASSERT(r == !stop0, "bounded: returns true exactly if the stop bit was clear (sequential run)");
+  VX_ASSERT(!r || (g_won && !W_STOP(g_win_old) && W_STOP(g_win_new) && W_STOP(g_S.state_)), "bounded: the winner's step set the stop bit");
+  VX_ASSERT(!r || (g_S.callbacks_ == NULL && g_final_empty && g_S.signalling_thread_ == g_self_id), "bounded: the winner drained the list");
+  VX_ASSERT(!(r && listed0) || (g_V.g_exec == 1 && g_V.prev_ == NULL && (g_V.callback_finished_executing_ || g_v_self_removed)) || (g_V.g_exec == 0 && g_V.g_dead), "bounded: listed victim ran exactly once or was deregistered first");
+  VX_ASSERT(r || (g_S.callbacks_ == head0 && g_V.g_exec == 0 && g_releases == 0), "bounded: the loser touches nothing");
+  VX_ASSERT(!g_held && !W_LOCK(g_S.state_), "bounded: lock released");
+#endif
   if (!r) VX_REACH("lost");
   if (r && !listed0) VX_REACH("won_victim_not_listed");
   if (r && listed0 && g_V.g_exec == 1 && g_V.callback_finished_executing_) VX_REACH("victim_executed_once");
